@@ -130,7 +130,7 @@ def star_subscript_trigger(tree, cfg, host, runtime):
 def class_catalogue(rec, size):
     """A hash-selected slice of C12's class-statement catalogue (its observation helper goes along as a prelude)."""
     from . import c12
-    skip = {"private", "super2"}
+    skip = {"super2"}
     for (hdr, members, pl) in c12.cells("quick"):
         if len(members) > 1 or pl not in ("module", "func", "loop", "inmethod") or (members and members[0] in skip):
             continue
